@@ -4982,17 +4982,22 @@ _trait_setstate(trait_object *trait, PyObject *args)
        versions < 6.0.
     */
     if (PyLong_Check(trait->py_validate)) {
+        /* PyObject_GetAttrString returns a new reference. */
         trait->py_validate =
             PyObject_GetAttrString(trait->handler, "validate");
+    }
+    else {
+        Py_INCREF(trait->py_validate);
     }
     if (PyLong_Check(trait->py_post_setattr)) {
         trait->py_post_setattr =
             PyObject_GetAttrString(trait->handler, "post_setattr");
     }
+    else {
+        Py_INCREF(trait->py_post_setattr);
+    }
     /* End backwards compatibility hack */
 
-    Py_INCREF(trait->py_post_setattr);
-    Py_INCREF(trait->py_validate);
     Py_INCREF(trait->default_value);
     Py_INCREF(trait->delegate_name);
     Py_INCREF(trait->delegate_prefix);
